@@ -17,7 +17,9 @@ RULE = (
     "cutoff(N in 1..6), precision(optimum, eps), stats}; rules evaluate(x) (values steered inside / outside / onto the edge of "
     "the precision band), compare(a,b), read bounds / direction, unwrap, ask SingularProblemPrecisionReached; after every rule "
     "the real stack is compared with a reference model of every layer (returned value, objective invoked or not, every counter, "
-    "ETA, sticky flag). Additionally all 341 stack shapes x 2 directions are enumerated with a fixed 12-call script every run. "
+    "ETA, sticky flag); one stack in four sits on FunctionProblem(use_cache=True), where the objective may be spared for a genome "
+    "seen before (values, counters and flags as without cache; objective invocations <= forwarded calls). Additionally all 341 "
+    "stack shapes x 2 directions x cache on/off are enumerated with a fixed 12-call script every run. "
     "Non-trivial = a sequence on a stack of depth >=2 that goes past a cutoff and hits the precision band at least twice; "
     "distinct = distinct (stack, operation sequence) digests."
 )
@@ -44,10 +46,11 @@ class LayerModel:
 class StackModel:
     """layers[0] is the innermost wrapper (applied first), layers[-1] the outermost"""
 
-    def __init__(self, specs, maximize):
+    def __init__(self, specs, maximize, cache=False):
         self.layers = [LayerModel(s) for s in specs]
         self.maximize = maximize
         self.objective_calls = 0
+        self.cache = bool(cache)  # FunctionProblem(use_cache=True): the objective may be spared for a genome seen before
 
     def evaluate(self, v: float) -> float:
         def go(i: int) -> float:
@@ -71,7 +74,7 @@ class StackModel:
 # -- real stack --------------------------------------------------------------------------------------
 
 
-def build_real(specs, maximize, log):
+def build_real(specs, maximize, log, cache=False):
     from pyhms.core.problem import EvalCountingProblem, EvalCutoffProblem, FunctionProblem, PrecisionCutoffProblem, StatsGatheringProblem
 
     bounds = np.array([[-10.0, 10.0], [-3.0, 7.5]])
@@ -80,7 +83,7 @@ def build_real(specs, maximize, log):
         log.append(float(x[0]))
         return float(x[0])
 
-    p = FunctionProblem(fun, bounds=bounds, maximize=maximize)
+    p = FunctionProblem(fun, bounds=bounds, maximize=maximize, use_cache=True) if cache else FunctionProblem(fun, bounds=bounds, maximize=maximize)
     inner = p
     layers = []
     for s in specs:
@@ -102,7 +105,11 @@ def compare_state(specs, model: StackModel, layers, log, where: str) -> list[Vio
     def fail(sub, detail):
         vs.append(Violation(PROP, f"C16/{sub}", f"{where}: {detail} (stack innermost->outermost: {[_fmt(s) for s in specs]}, maximize={model.maximize})"))
 
-    if len(log) != model.objective_calls:
+    if model.cache:
+        # with the opt-in cache the objective is invoked at most once per forwarded call and at least once per distinct genome
+        if len(log) > model.objective_calls or (model.objective_calls > 0 and not log):
+            fail("objective-invocations/cache", f"objective invoked {len(log)} times for {model.objective_calls} forwarded calls (cache on)")
+    elif len(log) != model.objective_calls:
         fail("objective-invocations", f"objective invoked {len(log)} times, model says {model.objective_calls}")
     for i, (s, m, r) in enumerate(zip(specs, model.layers, layers)):
         got = r.n_evaluations
@@ -187,8 +194,8 @@ def apply_op(op, specs, model, real, inner, layers, bounds, log, maximize) -> li
 def run_sequence(case) -> tuple[list[Violation], dict]:
     specs, maximize, ops = case["stack"], bool(case["maximize"]), case["ops"]
     log: list[float] = []
-    model = StackModel(specs, maximize)
-    real, inner, layers, bounds = build_real(specs, maximize, log)
+    model = StackModel(specs, maximize, case.get("cache", False))
+    real, inner, layers, bounds = build_real(specs, maximize, log, case.get("cache", False))
     vs = []
     for op in ops:
         vs += apply_op(op, specs, model, real, inner, layers, bounds, log, maximize)
@@ -224,14 +231,14 @@ def make_machine(coll: Collector, tally: Tally):
             self.ready = False
             self.pending: list[Violation] = []
 
-        @initialize(specs=st.one_of(st.lists(S_SPEC, min_size=0, max_size=4), st.lists(S_SPEC, min_size=2, max_size=4)), maximize=st.booleans())
-        def setup(self, specs, maximize):
+        @initialize(specs=st.one_of(st.lists(S_SPEC, min_size=0, max_size=4), st.lists(S_SPEC, min_size=2, max_size=4)), maximize=st.booleans(), cache=st.sampled_from([False, False, False, True]))
+        def setup(self, specs, maximize, cache):
             if coll.quiet():
                 return
-            self.case = {"stack": specs, "maximize": maximize, "ops": []}
+            self.case = {"stack": specs, "maximize": maximize, "ops": [], "cache": cache}
             self.log = []
-            self.model = StackModel(specs, maximize)
-            self.real, self.inner, self.layers, self.bounds = build_real(specs, maximize, self.log)
+            self.model = StackModel(specs, maximize, cache)
+            self.real, self.inner, self.layers, self.bounds = build_real(specs, maximize, self.log, cache)
             self.ready = True
 
         def _do(self, op):
@@ -293,6 +300,8 @@ def make_machine(coll: Collector, tally: Tally):
                 tally.label("went_past_cutoff")
             if info["hits"] >= 2:
                 tally.label("precision_hit_twice")
+            if self.case.get("cache"):
+                tally.label("innermost_problem_caches")
             tally.add_case(self.case, info["nontrivial"], sample={"stack": [_fmt(s) for s in self.case["stack"]], "maximize": self.case["maximize"], "ops": self.case["ops"][:12]})
             tally.count("steps", len(self.case["ops"]))
 
@@ -316,12 +325,12 @@ def enumerate_shapes(tally: Tally, coll: Collector):
     n = 0
     for depth in range(0, 5):
         for combo in itertools.product(KINDS, repeat=depth):
-            for maximize in (False, True):
+            for maximize, cache in ((False, False), (True, False), (False, True), (True, True)):
                 ops = []
                 for v in SCRIPT:
                     ops.append({"op": "evaluate", "v": v})
                 ops += [{"op": "compare", "a": 1.0, "b": 2.0}, {"op": "bounds"}, {"op": "direction"}, {"op": "unwrap"}, {"op": "gsc"}]
-                case = {"stack": [dict(spec_of[k]) for k in combo], "maximize": maximize, "ops": ops}
+                case = {"stack": [dict(spec_of[k]) for k in combo], "maximize": maximize, "ops": ops, "cache": cache}
                 vs, info = run_sequence(case)
                 n += 1
                 tally.add_case(case, info["nontrivial"], sample={"stack": list(combo), "maximize": maximize, "ops": "fixed script"})
